@@ -63,8 +63,8 @@ def run(F, rep):
         nhash_locals += sum(1 for l in f.locals if HASHTY.search(l["ty"]) and not l["ty"].startswith("&"))
         ex = None
         for bi, t in f.calls():
-            if t.get("indirect") or t["sp"].get("exp"):
-                continue
+            if t.get("indirect") or (t["sp"].get("exp") and not str(t["sp"].get("mac", "")).startswith("Desugaring")):
+                continue          # macro plumbing (eprintln!, format!) is skipped; `for` / `?` desugarings are the program
             c = t["callee"]
             recv = t["args"][0].get("pl", {}).get("ty", "") if t["args"] else ""
             if ITER.search(c) and (HASHTY.search(recv) or HASHTY.search(t.get("callee_disp", "").rsplit("::", 1)[0])):
@@ -347,8 +347,29 @@ def run(F, rep):
                 if not obs:
                     continue
                 nw += 1
-                rep.ob("C04-D7", "%s waits until the queue holds no items (tokens have size 0, so byte counts cannot see them)" % k.rsplit("::", 1)[-1],
-                       all(o in ("len", "is_empty") for o in obs), detail="wait condition %s" % fmt(e), site=site_of(f, f.blocks[b]["term"]),
+                # an observer is blind to tokens iff what it returns is (derived from) the byte counter of the queue
+                import rules.c06 as c06q
+                Rq = c06q.discover(F)
+                blind = []
+                for o in obs:
+                    of = F.funcs.get("ragc_core::memory_bounded_queue::MemoryBoundedQueue::<T>::" + o)
+                    if of is None or Rq is None:
+                        if o not in ("len", "is_empty"):
+                            blind.append(o)
+                        continue
+                    exo = Exprs(of)
+                    rets = []
+                    for ob_ in of.blocks:
+                        for s_ in ob_["stmts"]:
+                            if s_["k"] == "assign" and s_["pl"]["l"] == 0 and not s_["pl"]["p"]:
+                                rets.append(exo.rvalue(s_["rv"]))
+                        t_ = ob_["term"]
+                        if t_["k"] == "call" and t_["dest"]["l"] == 0 and not t_["dest"]["p"]:
+                            rets.append(exo.call(t_))
+                    if any(contains(r_, lambda x: isinstance(x, tuple) and x[0] == "field" and x[2] == Rq["size"]) for r_ in rets):
+                        blind.append(o)
+                rep.ob("C04-D7", "%s waits on a count of items, not of bytes (tokens have size 0, so the byte counter cannot see them)" % k.rsplit("::", 1)[-1],
+                       not blind, detail="wait condition %s%s" % (fmt(e), "; %s() returns the byte counter" % blind[0] if blind else ""), site=site_of(f, f.blocks[b]["term"]),
                        key="C04-D7 | %s | wait observes item count" % k)
     rep.floor("C04-D7", nw, 2, "producer-side wait loops (drain, sync_and_flush)")
 
@@ -502,7 +523,7 @@ def _loop_body_insensitive(F, f, ex, next_block):
     bad = []
     for b in sorted(body):
         t = f.blocks[b]["term"]
-        if t["k"] == "call" and not t.get("indirect") and not t["sp"].get("exp"):
+        if t["k"] == "call" and not t.get("indirect") and not (t["sp"].get("exp") and not str(t["sp"].get("mac", "")).startswith("Desugaring")):
             if not ALLOWED_IN_LOOP.search(t["callee"]):
                 bad.append(t["callee"].rsplit("::", 2)[-2] + "::" + t["callee"].rsplit("::", 1)[-1])
     if bad:
